@@ -634,6 +634,7 @@ func (x *Exec) havocLoop(st *State, la *loopAnalysis, head *ssa.BasicBlock, spec
 	if mod.alloc {
 		st.bumpAlloc()
 	}
+	x.havocIters(st, la.body[head])
 	// ghosts that are updated anywhere but at entry may change in the loop
 	if f := st.Frame; f.Fn == x.Fn && x.FC != nil {
 		for _, g := range x.FC.Ghosts {
